@@ -195,6 +195,9 @@ func c13Writer(run *rt.Run, r *rt.Rand) {
 			run.Violation("history-pattern:wrong-format", "bytes of a format other than the configured one were written", wit(""))
 		}
 		run.Eval(fmt.Sprintf("w|%s|%s|%d", configured, mode, conc))
+		if run.NeedSample() && conc >= 3 {
+			run.Sample(wit("sample"))
+		}
 		run.SetAdd("writer_modes", mode)
 	}
 }
@@ -535,6 +538,9 @@ func c13Channel(run *rt.Run, r *rt.Rand) {
 		}
 		mu.Unlock()
 		run.Eval(fmt.Sprintf("c|%d|%s|%v|%s|%d", capn, consumer, timeout, ctxKind, ncalls))
+		if i == 0 {
+			run.Sample(wit("sample"))
+		}
 	}
 	_ = io.EOF
 }
